@@ -215,11 +215,14 @@ def check_helpers(w, rep):
 def run(w, rep, tier):
     rep.rule("C14.API", "the set-point generators resolve with the documented signatures")
     rep.rule("C14.frame", "on the regular branch: R^T R = I, xB = yB x zB, yB = (zB x xC)/|zB x xC| perpendicular to the heading, thrust = |v| with zB = v/|v|")
+    rep.rule("C14.force", "the demanded force whose direction is body z is the norm-limited feedback term plus (thrust_trim + ki_z z_i) along world z (shared with C15.clamp)")
     rep.rule("C14.flow", "returned attitude is SO3Quat.from_Matrix of the constructed frame; v_b = C_be^T v_e")
     rep.rule("C14.euler-eq", "M_b = J omega_dot + omega x (J omega) with the very rates that are returned")
     rep.rule("C14.rates", "d zB/dt along the trajectory (a' = j) equals q xB - p yB")
     rep.rule("C14.SIB", "f_ref and mr_ref_traj agree output by output at the constants of bezier.py")
     rep.rule("C14.helpers", "auto-level, Euler-to-quaternion and velocity-mode set-points are SO3Quat.from_Euler of the documented triple (unit quaternion by C07)")
+    from .c15 import check_position_loops2
+    check_position_loops2(w, rep, RULE="C14.force", RA="C14.API")
     with with_maxdeg(30):
         check_position_controllers(w, rep)
         check_flatness(w, rep)
